@@ -36,6 +36,7 @@ OWNERS = {
     'Sink': ('C16',),
     'TcpCC': ('C17',),
     'Route': ('C18',),
+    'Sp13': ('C13',),
     'Timer19': ('C19',),
     'Rt20': ('C20',),
 }
